@@ -6,6 +6,8 @@ import (
 	"testing"
 	"time"
 
+	libaudit "github.com/elastic/go-libaudit/v2"
+	"github.com/elastic/go-libaudit/v2/auparse"
 	"pgregory.net/rapid"
 
 	"verif/internal/hx"
@@ -132,4 +134,65 @@ func TestC02(t *testing.T) {
 func TestC02Large(t *testing.T) {
 	runHeldBack(t, hC02, "TestC02", propC02)
 	runSeam(t, hC02, "TestC02", propC02)
+}
+
+// TestC02Distance: the distance at which the order turns. Two events that never complete are buffered at the same
+// time (first seen in either order), then Close hands them over: sequence numbers that differ by at most 2^24-1
+// go in numeric order, and "sequence numbers that differ by more than 2^24-1 are ordered as a uint32 roll-over" —
+// the numerically larger one is the older one. Every distance around 2^24-1 and around the other powers of two,
+// from many starting points. (Two events only: with three the relation need not be transitive.)
+func TestC02Distance(t *testing.T) {
+	const lim = 1<<24 - 1
+	var dists []uint32
+	for _, c := range []uint64{1, 2, 1 << 8, 1 << 16, 1 << 23, lim, 1 << 25, 1 << 31, 1<<32 - lim, 1<<32 - 1} {
+		for d := int64(-3); d <= 3; d++ {
+			if v := int64(c) + d; v >= 1 && v <= 1<<32-1 {
+				dists = append(dists, uint32(v))
+			}
+		}
+	}
+	n := 0
+	for _, lo := range []uint32{0, 1, 5, 1 << 16, 1<<24 - 2, 1 << 24, 1 << 31, 1<<32 - 1<<25} {
+		for _, d := range dists {
+			hi := lo + d
+			if hi < lo {
+				continue // the pair is (lo, lo+d) with lo+d not wrapped: the numeric distance is d
+			}
+			for order := 0; order < 2; order++ {
+				for _, mif := range []int{5, 1} {
+					a, b := lo, hi
+					if order == 1 {
+						a, b = hi, lo
+					}
+					r := &recorder{byPtr: map[*auparse.AuditMessage]int{}}
+					r.cur = &Step{}
+					ra, err := libaudit.NewReassembler(mif, time.Hour, r)
+					if err != nil {
+						t.Fatalf("harness: %v", err)
+					}
+					ra.PushMessage(&auparse.AuditMessage{RecordType: 1300, Sequence: a, RawData: "a"})
+					ra.PushMessage(&auparse.AuditMessage{RecordType: 1300, Sequence: b, RawData: "b"})
+					_ = ra.Close()
+					var got []uint32
+					for _, cb := range r.cur.CBs {
+						if cb.IsEv && len(cb.Seqs) > 0 {
+							got = append(got, cb.Seqs[0])
+						}
+					}
+					want := []uint32{lo, hi}
+					if d > lim {
+						want = []uint32{hi, lo}
+					}
+					hC02.Eval()
+					n++
+					if len(got) != 2 || got[0] != want[0] || got[1] != want[1] {
+						h := History{MaxInFlight: mif, TimeoutNs: int64(time.Hour), Windowed: true, Base: want[0], Ops: []Op{{K: opPush, Seq: a, Typ: 1300}, {K: opPush, Seq: b, Typ: 1300}, {K: opClose}}}
+						hC02.Fail(t, "TestC02", h, "events %d and %d (distance %d, 2^24-1 = %d) pushed in that order, both buffered, then Close: delivered in the order %v, want %v", a, b, d, lim, got, want)
+						return
+					}
+				}
+			}
+		}
+	}
+	hC02.ClassN("distance-sweep-pair", n)
 }
